@@ -157,6 +157,9 @@ func init() {
 				p.MaxKeys = 24
 			}
 			pl := v1x.MakePlan(c.Rng, p)
+			if v1x.BoundaryLengthVariant(pl, c.Index) {
+				c.Obs("histories_with_a_key_of_boundary_length", 1)
+			}
 			c.Res.Digest = fw.DigestOf(pl.Cfg, pl.Summary(1000))
 			if c.Index < 2 {
 				c.Res.Sample = pl.Summary(60)
